@@ -2,6 +2,7 @@ package main
 
 import (
 	"fmt"
+	"go/token"
 	"go/types"
 	"strings"
 
@@ -117,6 +118,20 @@ func waitLoopOK(p *Prog, lf *LockFacts, f *ssa.Function, l *Loop, blockers []ssa
 				ctx := x.Call.Args[1]
 				if ctxOrigin(ctx) != "" && resultFalseLeavesLoop(x, l) {
 					ctxExit = fmt.Sprintf("WaitForStateChange(%s, …) == false leaves the loop (%s)", vstr(ctx), ctxOrigin(ctx))
+				}
+			}
+		}
+	}
+	if ctxExit == "" {
+		// a condition-variable wait cannot select on the context: accepted when each iteration tests ctx.Err() of the call's
+		// context before waiting (leaving the loop when it is non-nil) AND a waker goroutine, started before any wait,
+		// broadcasts on the same condition variable (holding its lock) when that context is done
+		for _, in := range blockers {
+			if blockingKind(in) == "Cond.Wait" {
+				if ok, why := condWaitCtxOK(p, lf, f, l, in.(*ssa.Call)); ok {
+					ctxExit = why
+				} else if why != "" {
+					return false, why
 				}
 			}
 		}
@@ -430,4 +445,176 @@ func selfRecursionBounded(f *ssa.Function, calls []*ssa.Call) (bool, string) {
 		ss = append(ss, vstr(call))
 	}
 	return false, strings.Join(ss, "; ")
+}
+
+// isCtxErr recognises ctx.Err() on a context.Context value.
+func isCtxErr(v ssa.Value) (ssa.Value, bool) {
+	call, ok := stripConv(v).(*ssa.Call)
+	if !ok || !call.Call.IsInvoke() || call.Call.Method.Name() != "Err" || shortType(call.Call.Value.Type()) != "context.Context" {
+		return nil, false
+	}
+	return call.Call.Value, true
+}
+
+// ctxFieldOf: the struct field a context value is loaded from ("" if it is not a field load).
+func ctxFieldOf(v ssa.Value) string {
+	if f, _, ok := loadedField(v); ok {
+		return f
+	}
+	return ""
+}
+
+// condWaitCtxOK: see the call site. Returns ("", "") when the pattern is simply absent.
+func condWaitCtxOK(p *Prog, lf *LockFacts, f *ssa.Function, l *Loop, wait *ssa.Call) (bool, string) {
+	condField, _, ok := loadedField(wait.Call.Args[0])
+	if !ok {
+		return false, ""
+	}
+	// (a)+(b): if ctx.Err() != nil { leave } in the loop, evaluated before the wait on every iteration
+	var errCall *ssa.Call
+	ctxField := ""
+	for b := range l.Blocks {
+		iff, isIf := b.Instrs[len(b.Instrs)-1].(*ssa.If)
+		if !isIf {
+			continue
+		}
+		bo, isB := iff.Cond.(*ssa.BinOp)
+		if !isB || (bo.Op != token.NEQ && bo.Op != token.EQL) || !isNilConst(bo.Y) {
+			continue
+		}
+		ctx, isE := isCtxErr(bo.X)
+		if !isE || ctxOrigin(ctx) == "" {
+			continue
+		}
+		leave := b.Succs[0]
+		if bo.Op == token.EQL {
+			leave = b.Succs[1]
+		}
+		if reachesLoop(leave, l) {
+			continue
+		}
+		ec := stripConv(bo.X).(*ssa.Call)
+		if !ec.Block().Dominates(wait.Block()) || !l.Blocks[ec.Block()] {
+			continue
+		}
+		errCall, ctxField = ec, ctxFieldOf(ctx)
+	}
+	if errCall == nil {
+		return false, ""
+	}
+	if ctxField == "" {
+		return false, "the context tested before the wait is not a field of the waiting object (the waker cannot be matched to it)"
+	}
+	// (c): a waker goroutine: select { case <-ctx.Done(): lock; cond.Broadcast(); unlock … }
+	var goIns *ssa.Go
+	eachInstr(f, func(in ssa.Instruction) {
+		g, isGo := in.(*ssa.Go)
+		if !isGo {
+			return
+		}
+		cl := calleeOf(&g.Call).Static
+		if cl == nil {
+			return
+		}
+		wakes := false
+		eachInstr(cl, func(x ssa.Instruction) {
+			sel, isSel := x.(*ssa.Select)
+			if !isSel {
+				return
+			}
+			for si, st := range sel.States {
+				if st.Dir != types.RecvOnly {
+					continue
+				}
+				ctx, isD := isCtxDone(st.Chan)
+				if !isD || ctxFieldOf(ctx) != ctxField {
+					continue
+				}
+				// in the branch of this case: Broadcast on the same cond with its lock held
+				eachInstr(cl, func(y ssa.Instruction) {
+					call, isC := y.(*ssa.Call)
+					if !isC || !strings.HasSuffix(calleeOf(&call.Call).Name(), "sync.(*Cond).Broadcast") {
+						return
+					}
+					if cf, _, isL := loadedField(call.Call.Args[0]); !isL || cf != condField {
+						return
+					}
+					if lf.HeldAt(call)[lf.CondLock[condField]] != 2 {
+						return
+					}
+					if selectCaseReaches(sel, si, call.Block()) {
+						wakes = true
+					}
+				})
+			}
+		})
+		if wakes {
+			goIns = g
+		}
+	})
+	if goIns == nil {
+		return false, "the loop tests ctx.Err() before waiting, but nothing wakes the waiter when the context ends (no goroutine that broadcasts on " + condField + " after <-ctx.Done())"
+	}
+	// (d): the waker is started before any wait
+	if goIns.Block().Dominates(wait.Block()) {
+		return true, fmt.Sprintf("each iteration leaves on %s.Err() != nil before waiting, and a waker started at %s broadcasts on %s (lock held) when that context is done", ctxField, p.ipos(goIns), condField)
+	}
+	// started once, guarded by a local that is nil exactly until the waker exists
+	var guard *ssa.Alloc
+	for _, in := range goIns.Block().Instrs {
+		if st, isSt := in.(*ssa.Store); isSt {
+			if al, isAl := st.Addr.(*ssa.Alloc); isAl {
+				if _, isMk := st.Val.(*ssa.MakeChan); isMk {
+					guard = al
+				}
+			}
+		}
+	}
+	if guard == nil {
+		return false, "the waker goroutine is not started on every path to the wait, and no guard variable ties the two"
+	}
+	for _, st := range storesTo(guard) {
+		if st.Block() != goIns.Block() {
+			return false, "the waker's guard variable is assigned outside the block that starts the waker"
+		}
+	}
+	isGuardLoad := func(v ssa.Value) bool {
+		u, ok := stripConv(v).(*ssa.UnOp)
+		return ok && u.X == ssa.Value(guard)
+	}
+	acs := newCondSpaceAvoid(f, recOf(eqAtom("noWaker", isGuardLoad, isNil)), map[*ssa.BasicBlock]bool{goIns.Block(): true}, "noWaker")
+	if imp, wit := acs.Implies(acs.Reach(wait), acs.Not(acs.Atom("noWaker"))); !imp || !acs.Seen("noWaker") {
+		return false, "a path reaches the wait without having started the waker goroutine: " + wit
+	}
+	return true, fmt.Sprintf("each iteration leaves on %s.Err() != nil before waiting; the waker (started once at %s, guarded by a local that is non-nil only after the start) broadcasts on %s with the lock held when that context is done", ctxField, p.ipos(goIns), condField)
+}
+
+// selectCaseReaches: the branch taken for select index si can reach block b.
+func selectCaseReaches(sel *ssa.Select, si int, b *ssa.BasicBlock) bool {
+	var idx ssa.Value
+	for _, r := range *sel.Referrers() {
+		if ex, ok := r.(*ssa.Extract); ok && ex.Index == 0 {
+			idx = ex
+		}
+	}
+	if idx == nil {
+		return false
+	}
+	for _, r := range *idx.Referrers() {
+		bo, ok := r.(*ssa.BinOp)
+		if !ok {
+			continue
+		}
+		cv, isC := constInt(bo.Y)
+		if !isC || int(cv) != si {
+			continue
+		}
+		for _, rr := range *bo.Referrers() {
+			if iff, ok := rr.(*ssa.If); ok {
+				t := iff.Block().Succs[0]
+				return t == b || canReach(t, b, false)
+			}
+		}
+	}
+	return false
 }
